@@ -320,8 +320,16 @@ def uf_axioms(terms):
                             names |= new
                             changed = True
     ax = []
+    zero = Q.lift(0)
+    half = z3.RealVal("1/2")
     for fn, args, res in apps:
         ax.append(z3.And(res.n >= 0, res.n <= 1))
+        # symmetric cdf (normal, Student t): F(x) >= 1/2 for x >= 0, <= 1/2 for x <= 0
+        a = args[0]
+        ge0 = bor(zero._lt(a), a._eq(zero))
+        le0 = bor(a._lt(zero), a._eq(zero))
+        ax.append(bz(bor(bnot(ge0), res.n >= half)))
+        ax.append(bz(bor(bnot(le0), res.n <= half)))
     for i in range(len(apps)):
         for j in range(i):
             if apps[i][0] == apps[j][0]:
